@@ -94,6 +94,12 @@ def cells(tier, seed):
     words = sorted(set(a[1] for a in T.alphabet() if a[0] == "identifier")
                    | {"date with hour", "numerical min_len 2", "numerical exact_len 2",
                       "alphanumerical max_len 3", "in [1, 'abc']", "in 'xabcx'"})
+    # ... and every predicate word the real parser knows (read off its source)
+    import inspect
+    import re as _re
+    import ckl.parser as _P
+    known = set(_re.findall(r'matchIf\(\s*"([A-Za-z_]+)"\s*,\s*"identifier"', inspect.getsource(_P.parse_pred_expr)))
+    words = sorted(set(words) | known)
     for w in words:
         out.append({"k": "ispred", "word": w})
     return out
